@@ -14,8 +14,6 @@ import itertools
 import json
 import os
 import re
-import shutil
-import tempfile
 
 import numpy as np
 
@@ -324,7 +322,7 @@ def _cli_files(case, pre, tmp):
             for c in opts.get(name) or ():
                 conv[c] = CONV[fn]
         want = {i: {c: (conv[c](v) if c in conv else v) for c, v in d.items()} for i, d in expected.items()}
-        p = vu.write_text(tmp, 'map_%s.txt' % axis, ''.join(lines))
+        p = tmp.write('map_%s.txt' % axis, ''.join(lines))
         out[axis] = (p, want, header)
     return out
 
@@ -333,8 +331,9 @@ def _cli_core(case):
     from biom.cli.metadata_adder import _add_metadata
     t = vu.build(case)
     pre = rt.view(t)
-    tmp = tempfile.mkdtemp(prefix='verif_c18_')
     handles = []
+    tmpf = vu.TmpFiles()
+    tmp = tmpf.__enter__()
     try:
         files = _cli_files(case, pre, tmp)
         kw = dict(case['options'])
@@ -349,7 +348,7 @@ def _cli_core(case):
     finally:
         for fh in handles:
             fh.close()
-        shutil.rmtree(tmp, ignore_errors=True)
+        tmpf.__exit__()
     if st == 'exc':
         return [('_add_metadata/returns', 'a table', res)]
     post = rt.view(res)
@@ -381,10 +380,11 @@ def _e2e_core(case):
     from biom.cli.metadata_adder import add_metadata
     t = vu.build(case)
     pre = rt.view(t)
-    tmp = tempfile.mkdtemp(prefix='verif_c18_')
+    tmpf = vu.TmpFiles()
+    tmp = tmpf.__enter__()
     try:
-        inp = vu.write_text(tmp, 'in.biom', vu.json_biom_text(pre))
-        outp = os.path.join(tmp, 'out.biom')
+        inp = tmp.write('in.biom', vu.json_biom_text(pre))
+        outp = tmp.path('out.biom')
         files = _cli_files(case, pre, tmp)
         args = ['-i', inp, '-o', outp, '--output-as-json']
         if 'sample' in files:
@@ -406,7 +406,7 @@ def _e2e_core(case):
         with open(outp, encoding='utf-8') as fh:
             doc = json.load(fh)
     finally:
-        shutil.rmtree(tmp, ignore_errors=True)
+        tmpf.__exit__()
     fails = []
     for axis, key in (('sample', 'columns'), ('observation', 'rows')):
         ids = pre.ids(axis)
@@ -433,6 +433,8 @@ def run_e2e_case(case):
             'nontrivial': bool(case['named'])}
 
 
+run_add_case, run_del_case = vu.history_guard(run_add_case), vu.history_guard(run_del_case)
+run_cli_case, run_e2e_case = vu.history_guard(run_cli_case), vu.history_guard(run_e2e_case)
 SCOPES = {'add_metadata': run_add_case, 'del_metadata': run_del_case, 'from_file': run_from_file_case,
           '_add_metadata': run_cli_case, 'cli-add-metadata': run_e2e_case}
 
@@ -553,12 +555,14 @@ def run(rep):
                      'header override (none, ID only, first k, all, longer) with/without a header line in the file x '
                      'strip_quotes x process functions%s' % (' (quick: every 7th)' if q else ''),
                      from_file_cases(rep.tier), run_from_file_case, exhaustive=not q)
-        rt.run_scope(rep, '_add_metadata', 'table states x sample/observation/both mapping files (5 columns incl. int, '
-                     'float, semicolon, pipe columns) x named IDs none/one/all (+ unknown) x 6 option sets (int/float/'
-                     'sc/sc-pipe fields, header overrides)', cli_cases(rep.tier), run_cli_case, exhaustive=False)
-        rt.run_scope(rep, 'cli-add-metadata', 'the add-metadata command end to end (JSON table written with the json '
-                     'module, --output-as-json read back with the json module), plain/numeric IDs, sampled option sets',
-                     cli_cases(rep.tier, e2e=True), run_e2e_case, chunk=8, exhaustive=False)
+        with vu.shared_tmp():
+            rt.run_scope(rep, '_add_metadata', 'table states x sample/observation/both mapping files (5 columns incl. '
+                         'int, float, semicolon, pipe columns) x named IDs none/one/all (+ unknown) x 6 option sets '
+                         '(int/float/sc/sc-pipe fields, header overrides)', cli_cases(rep.tier), run_cli_case,
+                         exhaustive=False)
+            rt.run_scope(rep, 'cli-add-metadata', 'the add-metadata command end to end (JSON table written with the '
+                         'json module, --output-as-json read back with the json module), plain/numeric IDs, sampled '
+                         'option sets', cli_cases(rep.tier, e2e=True), run_e2e_case, chunk=8, exhaustive=False)
     common.finish_notes(rep, 'C18')
 
 
